@@ -550,8 +550,12 @@ class Part(object):
                 if musical_beat:
                     normal_dur = ts.musical_beats
                 # a full measure must not be taken for a pickup because of rounding
-                # in the interpolated duration
-                if actual_dur < normal_dur and not np.isclose(actual_dur, normal_dur):
+                # in the interpolated duration (a few ulp); the tolerance must stay far
+                # below one division at any resolution, so that a first measure that is
+                # a single tick short of the bar is still a pickup
+                if actual_dur < normal_dur and not np.isclose(
+                    actual_dur, normal_dur, rtol=1e-9, atol=0
+                ):
                     y -= actual_dur
             else:
                 # warn
